@@ -116,6 +116,13 @@ def handle (j : Json) : IO Unit := do
     | _ =>
       emit case false true "stack.no-single-request" ""
         s!"backend saw {seenReqs.length} requests, status {jstr (jget impl "status")} err {jstr (jget impl "err")}"
+  | "owners" =>
+    -- many clients at once on a long-lived stack: the upstream header block is a function of the client's own request
+    -- (`copyHeaders` has no other input): each upstream request carries its own client's header lines and nobody else's
+    if jstr (jget impl "start_err") != "" then emit case false true "stack.start-failed" "" (jstr (jget impl "start_err")) else
+    let wrong := jnat (jget impl "wrong")
+    emit case (wrong == 0) (wrong == 0) s!"owners.{jstr (jget j "engine")}" (if wrong == 0 then "" else "upstream-request-carries-another-clients-headers")
+      (if wrong == 0 then "" else s!"{jstr (jget j "engine")}: {wrong} of {jnat (jget impl "requests_seen")} concurrent upstream requests; {jstr (jget impl "first")}")
   | "stack-error" => emit case false true "stack.start-failed" "" (jstr (jget impl "err"))
   | _ => emit case false true "unknown-kind" "" s!"unknown kind {kind}"
 
